@@ -245,7 +245,7 @@ func (g *gen) counterStyleGraph() refPiece {
 	}
 	// the document uses the entry (and sometimes another node)
 	use := func() string {
-		if r.Chance(1, 5) {
+		if r.Chance(1, 8) {
 			return names[r.Intn(gr.n)]
 		}
 		return names[0]
@@ -828,13 +828,13 @@ func (g *gen) nameGraph() refPiece {
 
 func (g *gen) refMechanism() refPiece {
 	switch k := g.r.Intn(20); {
-	case k < 5:
+	case k < 6:
 		return g.counterStyleGraph()
-	case k < 10:
+	case k < 11:
 		return g.svgIDGraph()
-	case k < 12:
+	case k < 13:
 		return g.importGraph()
-	case k < 14:
+	case k < 15:
 		return g.svgFileGraph()
 	case k < 17:
 		return g.targetGraph()
@@ -848,7 +848,7 @@ func (g *gen) refMechanism() refPiece {
 // refPieces: the reference graphs a themed document is built around
 func (g *gen) refPieces() refPiece {
 	p := g.refMechanism()
-	if g.r.Chance(1, 4) {
+	if g.r.Chance(1, 2) { // two graphs (of the same or of different mechanisms) in one document
 		p.merge(g.refMechanism())
 	}
 	return p
